@@ -136,13 +136,15 @@ def gen_case(rng, tier, g):
                                                '@len'])
             if rng.random() < 0.3:
                 args['td_styles'] = rng.choice(['font: x', '@value',
-                                                '@dict-str', '@dict-fn'])
+                                                '@dict-str', '@dict-fn',
+                                                '@dict-hdr', '@dict-hdr'])
         table = _text_table(rng, maxrows)
         n = len(table) - 1
         history = rng.choice(['full', 'full', 'partial-close-full',
                               'partial-drop-full', 'full-full',
                               'partial-partial-full', 'sinkfail-full',
-                              'full-shrink-full', 'full-permute-full'])
+                              'full-shrink-full', 'full-permute-full',
+                              'partial-full-close', 'partial-full-drop'])
         return {'prop': PROP, 'machine': 'tee', 'fmt': fmt, 'args': args,
                 'config': draw_config(rng, 0.25, exclude=('sort_buffersize',)),
                 'table': table, 'history': history,
@@ -150,8 +152,12 @@ def gen_case(rng, tier, g):
                 'budget': rng.choice([0, 1, 5, 20, 60, 200]),
                 'fluent': rng.random() < 0.15,
                 'drop': rng.choice([1, 1, 2, 5]),
+                # (not under a straddling iterator: MemorySource closes the
+                # buffer of an earlier writer when it is opened again, so
+                # releasing that writer raises - by design of that source)
                 'sink': rng.choice(['sim', 'sim', 'memory'])
-                if history != 'sinkfail-full' else 'sim',
+                if history not in ('sinkfail-full', 'partial-full-close',
+                                   'partial-full-drop') else 'sim',
                 'rowtype': rng.choice(['copy', 'alias'])}
     if m < 0.8:
         kind = rng.choice(['progress', 'progress', 'log_progress', 'clock'])
@@ -204,7 +210,12 @@ class _Bad(Exception):
         self.msg = msg
 
 
-def _html_args(a):
+def _hdr_of(table):
+    rows = getattr(table, 'rows', None)
+    return list(rows[0]) if rows else []
+
+
+def _html_args(a, hdr=()):
     # callables travel by name in the (JSON) case
     if a.get('vrepr') == 'repr':
         a['vrepr'] = repr
@@ -219,6 +230,12 @@ def _html_args(a):
         a['td_styles'] = lambda v: 'v: %s' % (v,) if v else ''
     elif ts == '@dict-str':
         a['td_styles'] = {'a': 'col: a', 'zz': 'never'}
+    elif ts == '@dict-hdr':
+        # keyed by the field objects of the table themselves (which need
+        # not be text)
+        a['td_styles'] = dict((h, 'col: %s' % (h,)) for i, h in enumerate(hdr)
+                              if isinstance(h, (str, int, float, bool,
+                                                type(None))))
     elif ts == '@dict-fn':
         a['td_styles'] = {'a': lambda v: 'len: %d' % len(str(v)),
                           'b': 'col: b'}
@@ -228,7 +245,7 @@ def _html_args(a):
 def _to(e, fmt, table, src, args):
     a = dict(args)
     if fmt == 'html':
-        a = _html_args(a)
+        a = _html_args(a, _hdr_of(table))
     if fmt == 'csv':
         e.tocsv(table, src, **a)
     elif fmt == 'tsv':
@@ -251,7 +268,7 @@ def _tee(e, fmt, table, src, args):
         e = Fluent(e)
     a = dict(args)
     if fmt == 'html':
-        a = _html_args(a)
+        a = _html_args(a, _hdr_of(table))
     if fmt == 'csv':
         return e.teecsv(table, src, **a)
     if fmt == 'tsv':
@@ -293,7 +310,7 @@ def _run_tee(e, case, log):
             return mem.getvalue()
         return store.files.get('tee')
 
-    def full(label):
+    def full(label, allow_open=0):
         got = []
         it = iter(view)
         try:
@@ -313,7 +330,7 @@ def _run_tee(e, case, log):
             raise _Bad('bytes-differ', '%s %s: the sink holds %r, to%s '
                        'writes %r' % (what, label, have, fmt,
                                       state['bytes']))
-        if store.open_handles != 0:
+        if store.open_handles > allow_open:
             raise _Bad('handle-left-open', '%s %s: %d handles open after a '
                        'complete pass' % (what, label, store.open_handles))
 
@@ -389,8 +406,39 @@ def _run_tee(e, case, log):
             ref.source('ref'), args)
         state['bytes'] = ref.files['ref']
         state['rows'] = canon_rows(src.rows)
+    def straddle(how, k):
+        # an iterator is advanced a few rows and kept; a complete pass is
+        # made; only then is the first one closed or dropped.  What its
+        # abandoned writer still flushes must not damage the finished target
+        it = iter(view)
+        got = []
+        for _ in range(k):
+            try:
+                got.append(canon_row(next(it)))
+            except StopIteration:
+                break
+            except Exception as ex:
+                raise _Bad('tee-raised', '%s partial pass raised %s: %s'
+                           % (what, type(ex).__name__, ex))
+        full('complete pass while an earlier iterator is still open',
+             allow_open=1)
+        if how == 'close':
+            it.close()
+        del it
+        gc.collect()
+        have = sink_bytes()
+        if have != state['bytes']:
+            raise _Bad('bytes-differ', '%s: after a complete pass the target '
+                       'was right, but releasing (%s) an iterator abandoned '
+                       'before that pass left %r in it; to%s writes %r'
+                       % (what, how, have, fmt, state['bytes']))
+        if store.open_handles != 0:
+            raise _Bad('handle-left-open', '%s: %d handles open'
+                       % (what, store.open_handles))
     h = case['history']
-    if h == 'full-shrink-full':
+    if h in ('partial-full-close', 'partial-full-drop'):
+        straddle(h.rsplit('-', 1)[1], case['partial'])
+    elif h == 'full-shrink-full':
         full('pass 1')
         shrink()
         full('pass after the table got shorter')
